@@ -176,6 +176,76 @@ def key_shape_docs(rng):
         yield sh(clean(), clean())
 
 
+DEEP_BOTTOMS = [["err", "=1/0"], ["err", "=inputs.nope"], ["err", "=to_ref({})"], ["err", "=inputs.nope == []"]]
+
+
+def deep_nest(kind, n, bottom):
+    """n container levels around `bottom`: maps only, or maps and lists alternating (a map directly
+    above the bottom: a failing item of a list literal makes celpy fail the list as a whole, whereas
+    a map keeps the error object as a value — so it really sits n levels deep)"""
+    d = bottom
+    for i in range(n):
+        d = M(("k", d)) if kind == "map" or i % 2 == 0 else ["A", [L(["lit", 0]), d]]
+    return d
+
+
+def deep_expr(kind, n, bottom_src):
+    """one expression that computes the same nesting"""
+    src = bottom_src
+    for i in range(n):
+        src = "{'k': " + src + "}" if kind == "map" or i % 2 == 0 else "[0, " + src + "]"
+    return "=" + src
+
+
+def deep_depths(ctx):
+    # celpy (recursion limit 2500) evaluates literal nestings up to ~46 levels; deeper ones raise
+    # RecursionError, which must be a PermFail as well
+    return [33, 34, 37, 41, 45, 60] if ctx.quick() else list(range(30, 49)) + [55, 60, 80]
+
+
+def gen_deep(ctx: Ctx):
+    rng = ctx.rng
+    for n in deep_depths(ctx):
+        for kind in ("map", "mix"):
+            bottom = rng.choice(DEEP_BOTTOMS)
+            static = deep_nest(kind, n, L(bottom))
+            computed = L(["err", deep_expr(kind, n, bottom[1].lstrip("="))])
+            clean = deep_nest(kind, n, L(["lit", 1]))
+            tag = f"deep:{'<=46' if n <= 46 else '>46'}"
+            yield {"mode": "eval", "doc": M(("top", static)), "tag": tag}
+            yield {"mode": "eval", "doc": M(("top", computed)), "tag": tag}
+            yield {"mode": "eval", "doc": M(("top", clean)), "tag": tag}
+            yield {"mode": "overlay", "doc": M(("a", computed), ("b", L(["lit", 1]))), "base": {}, "tag": tag}
+            yield {"mode": "overlay", "doc": M(("a", M(("b", ["A", [static]])))), "base": {"a": {"z": 1}}, "tag": tag}
+            yield {"mode": "vf", "preds": None, "locals": M(("x", static)), "ret": M(("r", L(["lit", 1]))), "base": None,
+                   "tag": "vf-" + tag}
+            yield {"mode": "vf", "preds": None, "locals": None, "ret": M(("r", computed)), "base": None, "tag": "vf-" + tag}
+            yield {"mode": "vf", "preds": None, "locals": None, "ret": M(("r", ["A", [static]])), "base": {"r": 0},
+                   "tag": "vf-" + tag}
+            yield {"mode": "vf", "preds": None, "locals": M(("x", clean)), "ret": M(("r", L(["cel", "=locals.x", None]))),
+                   "base": None, "tag": "vf-" + tag}
+            if RF_AVAILABLE:
+                for present in (False, "drift"):
+                    c = rf_case("resource", ["lit", 1], present)
+                    c["resource"] = M(("spec", static))
+                    c["tag"] = "rf-" + tag
+                    yield c
+                    c = rf_case("overlay0", ["lit", 1], present)
+                    c["overlays"][0] = {"overlay": M(("spec", M(("a", computed))))}
+                    c["tag"] = "rf-" + tag
+                    yield c
+    # Python values handed to check_for_celevalerror directly: depth 33..80, every container type
+    depths = [33, 34, 40, 64, 80] if ctx.quick() else list(range(30, 81))
+    for n in depths:
+        for kinds in (["dict"], ["MapType"], ["list"], ["tuple"], ["ListType"], ["dict", "list"], ["MapType", "ListType", "tuple"]):
+            for bottom in (["e"], ["i", 5]):
+                v = bottom
+                for i in range(n):
+                    k = kinds[i % len(kinds)]
+                    v = ["m", k, [["a", ["s", "x"]], ["k", v]]] if k in ("dict", "MapType") else ["l", k, [["i", 0], v]]
+                yield {"mode": "scan", "value": v, "tag": "scan-deep"}
+
+
 def doc_fails(doc) -> bool:
     return doc is not None and any(failing(l) for l in doc_leaves(doc))
 
@@ -615,17 +685,57 @@ def rf_case(site, leaf, present):
     return c
 
 
+_VF_COUNTER = [0]
+
+
 def run_rf(case):
     import celpy
     from cluster import Cluster
+    from koreo import cache
     from koreo.resource_function.prepare import prepare_resource_function
     from koreo.resource_function.reconcile import reconcile_resource_function
     from koreo.resource_function.structure import ResourceFunction
+    from koreo.value_function.prepare import prepare_value_function
+    from koreo.value_function.structure import ValueFunction
+    try:
+        from drivers import reset_all
+        reset_all()
+    except Exception:
+        pass
     b = Builder()
+    overlays, vfs = [], {}
+    for o in case["overlays"]:
+        e = {}
+        if "skipIf" in o:
+            e["skipIf"] = b.spec(o["skipIf"])
+        if "overlay" in o:
+            e["overlay"] = b.spec(o["overlay"])
+        if "ref" in o:
+            # an overlayRef to a ValueFunction (its documents may only use lit / cel / err leaves:
+            # its `inputs` are what the overlay entry's `inputs` evaluate to)
+            _VF_COUNTER[0] += 1
+            name = f"c10-vf-{_VF_COUNTER[0]}"
+            vb = Builder()
+            vfs[name] = {k2: vb.spec(o["ref"][k]) for k, k2 in (("locals", "locals"), ("ret", "return"))
+                         if o["ref"].get(k) is not None}
+            assert not vb.inputs
+            e["overlayRef"] = {"kind": "ValueFunction", "name": name}
+            if o["ref"].get("inputs") is not None:
+                e["inputs"] = b.spec(o["ref"]["inputs"])
+        overlays.append(e)
     spec = {"apiConfig": {"apiVersion": "test.koreo.dev/v1", "kind": "TestResource", "plural": "testresources",
                           "name": b.spec(case["name"]), "namespace": "ns"},
             "resource": b.spec(case["resource"]),
-            "overlays": [{k: b.spec(d) for k, d in o.items()} for o in case["overlays"]]}
+            "overlays": overlays}
+    if vfs:
+        async def register():
+            for n, vs in vfs.items():
+                await cache.prepare_and_cache(ValueFunction, prepare_value_function,
+                                              {"name": n, "resourceVersion": "1"}, vs)
+        try:
+            H.run_async(register())
+        except Exception:
+            return None
     if case.get("create") is not None:
         spec["create"] = {"overlay": b.spec(case["create"])}
     if case.get("locals") is not None:
@@ -687,6 +797,12 @@ def check_rf(ctx: Ctx, case):
                    f"(API calls {out['calls']})")
         elif not (obs[3] or obs[4]):
             why = ("rf: PermFail names no location", repr(obs))
+        elif case.get("fail_index") is not None and \
+                any(int(n) != case["fail_index"]
+                    for n in re.findall(r"spec\.overlays\[(\d+)\]", f"{obs[3]} {obs[4] or ''}")):
+            why = ("rf: PermFail names the wrong overlay",
+                   f"the failing expression sits in spec.overlays[{case['fail_index']}] but the PermFail says {obs[3]!r} "
+                   f"(location {obs[4]!r})")
         elif any(m in ("POST", "PATCH", "DELETE") for m in out["calls"]):
             why = ("rf: cluster mutated although an expression failed", repr(out["calls"]))
     if why:
@@ -695,6 +811,58 @@ def check_rf(ctx: Ctx, case):
     ctx.count(f"rf-site:{case['site']}:{'failed-as-recorded' if rec_failed else 'clean'}")
     ctx.count("rf-result:" + (obs[0] if obs[0] != "out" else str(obs[1])))
     return None          # oracle only: reconcile_krm_resource is not modelled
+
+
+def gen_rf_overlays(ctx: Ctx):
+    """several overlays, each earlier one skipped (skipIf true) or applied, ONE later overlay failing — in its
+    inline document, its skipIf, its overlayRef inputs, or inside the referenced ValueFunction: the PermFail
+    must name the failing overlay's position in spec.overlays"""
+    rng = ctx.rng
+    leaves = [["err", "=1/0"], ["err", "=inputs.nope.x"], ["err", "={'a': [{'b': 1/0}]}"], ["raise", "=[1].map(x, x/0)"]]
+    skip_true = [L(["in", True]), L(["cel", "=true", True]), L(["cel", "=1 == 1", True])]
+    skip_false = [L(["in", False]), L(["cel", "=false", False])]
+
+    def fine(i):
+        if rng.random() < 0.3:
+            return {"ref": {"inputs": M(("v", L(["in", i]))), "ret": M(("spec", M((f"f{i}", L(["cel", "=inputs.v", i])))))}}
+        return {"overlay": M(("spec", M((f"o{i}", L(["in", i])))))}
+
+    kinds = ["inline", "inline-deep", "skipIf", "ref-inputs", "ref-vf-return", "ref-vf-locals"]
+    for n in (2, 3, 4):
+        for k in range(0, n):
+            for pattern in ("all-skipped", "first-skipped", "none-skipped", "random"):
+                for kind in (kinds if not ctx.quick() else rng.sample(kinds, 3)):
+                    leaf = rng.choice(leaves)
+                    ovs = []
+                    for i in range(n):
+                        o = fine(i)
+                        if i < k:
+                            skipped = {"all-skipped": True, "first-skipped": i == 0, "none-skipped": False,
+                                       "random": rng.random() < 0.5}[pattern]
+                            if skipped:
+                                o["skipIf"] = rng.choice(skip_true)
+                            elif rng.random() < 0.5:
+                                o["skipIf"] = rng.choice(skip_false)
+                        elif i == k:
+                            if kind == "inline":
+                                o = {"overlay": M(("spec", M(("bad", L(leaf)))))}
+                            elif kind == "inline-deep":
+                                o = {"overlay": M(("spec", M(("l", ["A", [M(("z", L(leaf)))]]))))}
+                            elif kind == "skipIf":
+                                o["skipIf"] = L(leaf)
+                            elif kind == "ref-inputs":
+                                o = {"ref": {"inputs": M(("v", L(leaf))), "ret": M(("spec", M(("r", L(["lit", 1])))))}}
+                            elif kind == "ref-vf-return":
+                                o = {"ref": {"inputs": M(("v", L(["in", 1]))), "ret": M(("spec", M(("r", L(leaf)))))}}
+                            else:
+                                o = {"ref": {"inputs": M(("v", L(["in", 1]))), "locals": M(("x", L(leaf))),
+                                             "ret": M(("spec", M(("r", L(["lit", 1])))))}}
+                            if kind != "skipIf" and rng.random() < 0.4:
+                                o["skipIf"] = rng.choice(skip_false)
+                        ovs.append(o)
+                    c = rf_case("locals", ["lit", 1], rng.choice([False, "drift"]))
+                    c.update(overlays=ovs, site=f"overlays[{k}]:{kind}", fail_index=k, tag=f"rf-overlays:{pattern}")
+                    yield c
 
 
 def gen_rf(ctx: Ctx):
@@ -714,6 +882,8 @@ def gen_cases(ctx: Ctx):
         yield c
     if RF_AVAILABLE:
         yield from gen_rf(ctx)
+        yield from gen_rf_overlays(ctx)
+    yield from gen_deep(ctx)
     # every failing expression, alone and nested, through evaluate and evaluate_overlay
     for leaf in FAIL_LEAVES:
         yield {"mode": "eval", "doc": L(leaf), "tag": "each:top"}
